@@ -218,6 +218,57 @@ package align
 //@     invariant forall r, c :: 0 <= r && r < nrows(a) && i < c && c < a.length ==> cell(a, r, c) == old(cell(a, r, c))
 //@     decreases nrows(a) - $i
 
+// ---- C14: column statistics ----
+
+// number of rows r < n whose case-folded residue in column c is x
+//@ pure func upcnt(a *align, c int, x int, n int) int = (n <= 0 ? 0 : upcnt(a, c, x, n-1) + (up8(cell(a, n-1, c)) == x ? 1 : 0))
+
+//@ func (*align).CharStatsSite
+//@   props C14 C19
+//@   requires wfa(a)
+//@   ensures (err != nil) == (site < 0 || site >= a.length)
+//@   ensures outmap != nil && fresh(outmap)
+//@   ensures err == nil ==> forall x :: 0 <= x && x < 256 ==> outmap[x] == upcnt(a, site, x, nrows(a)) && has(outmap, x) == (upcnt(a, site, x, nrows(a)) > 0)
+//@   modifies nothing
+//@   loop 1
+//@     invariant err == nil && 0 <= site && site < a.length && outmap != nil && fresh(outmap)
+//@     invariant forall x :: 0 <= x && x < 256 ==> outmap[x] == upcnt(a, site, x, $i) && has(outmap, x) == (upcnt(a, site, x, $i) > 0) && upcnt(a, site, x, $i) >= 0
+//@     decreases nrows(a) - $i
+
+//@ pure func wildcard(a *align) int = (a.alphabet == AMINOACIDS ? 'X' : 'N')
+//@ pure func excl(a *align, ignoreGaps bool, ignoreNs bool, k int) bool = (ignoreGaps && k == '-') || (ignoreNs && (k == wildcard(a) || k == low8(wildcard(a))))
+// per-site result of MaxCharStats: the most frequent case-folded character among those not excluded, ties to the lowest code;
+// when every character present is excluded: the first row's character and the number of rows
+//@ pure func ucnt(a *align, c int, x int) int = old(upcnt(a, c, x, nrows(a)))
+//@ pure func sitemax(a *align, out []uint8, occur []int, s int, ig bool, in bool) bool = (forall k :: 0 <= k && k < 256 && ucnt(a, s, k) > 0 ==> excl(a, ig, in, k)) ? (nrows(a) > 0 ==> out[s] == up8(old(cell(a, 0, s))) && occur[s] == nrows(a)) : (!excl(a, ig, in, out[s]) && occur[s] == ucnt(a, s, out[s]) && occur[s] > 0 && (forall k :: 0 <= k && k < 256 && !excl(a, ig, in, k) ==> ucnt(a, s, k) <= occur[s] && (ucnt(a, s, k) == occur[s] ==> out[s] <= k)))
+
+//@ func (*align).MaxCharStats
+//@   props C14 C12 C19
+//@   requires wfa(a)
+//@   ensures len(out) == (a.length < 0 ? 0 : a.length) && len(occur) == len(out) && len(total) == len(out) && fresh(out) && fresh(occur) && fresh(total)
+//@   ensures forall s :: 0 <= s && s < a.length ==> sitemax(a, out, occur, s, ignoreGaps, ignoreNs)
+//@   modifies nothing
+//@   maypanic
+//@   loop 1
+//@     invariant 0 <= site && len(out) == a.length && len(occur) == a.length && len(total) == a.length && fresh(out) && fresh(occur) && fresh(total) && base(out) != base(occur) && base(occur) != base(total)
+//@     invariant all == wildcard(a) && allc == low8(wildcard(a))
+//@     invariant forall s :: 0 <= s && s < site ==> sitemax(a, out, occur, s, ignoreGaps, ignoreNs)
+//@     decreases a.length - site
+//@   loop 2
+//@     modifies out[site], occur[site], map(mapstats)
+//@     invariant 0 <= site && site < a.length && mapstats != nil && fresh(mapstats) && max == 0
+//@     invariant forall x :: 0 <= x && x < 256 ==> mapstats[x] == old(upcnt(a, site, x, $i)) && has(mapstats, x) == (old(upcnt(a, site, x, $i)) > 0) && old(upcnt(a, site, x, $i)) >= 0
+//@     invariant $i > 0 ==> out[site] == up8(old(cell(a, 0, site))) && occur[site] == nrows(a)
+//@     decreases nrows(a) - $i
+//@   loop 3
+//@     modifies out[site], occur[site], total[site]
+//@     invariant 0 <= site && site < a.length && mapstats != nil && 0 <= max
+//@     invariant forall x :: 0 <= x && x < 256 ==> mapstats[x] == ucnt(a, site, x) && has(mapstats, x) == (ucnt(a, site, x) > 0)
+//@     invariant max == 0 ==> (forall k :: 0 <= k && k < 256 && visited(k) ==> excl(a, ignoreGaps, ignoreNs, k)) && (nrows(a) > 0 ==> out[site] == up8(old(cell(a, 0, site))) && occur[site] == nrows(a))
+//@     invariant max > 0 ==> visited(out[site]) && !excl(a, ignoreGaps, ignoreNs, out[site]) && occur[site] == max && max == ucnt(a, site, out[site])
+//@     invariant max > 0 ==> forall k :: 0 <= k && k < 256 && visited(k) && !excl(a, ignoreGaps, ignoreNs, k) ==> ucnt(a, site, k) <= max && (ucnt(a, site, k) == max ==> out[site] <= k)
+//@     invariant forall k :: visited(k) ==> has(mapstats, k)
+
 // ---- C06: strand and case transforms ----
 
 //@ table complement_nuc_mapping C06
